@@ -84,10 +84,22 @@ def strategy_(draw, tier):
     nv = {"one": 1, "fewer": draw(st.integers(1, n - 1)), "equal": n, "more": n + draw(st.integers(1, 5)), "train": n}[cat]
     Xv = X.copy() if cat == "train" else gen.normal(draw, (nv, m)) * draw(st.sampled_from([0.5, 1.0]))
     Yv = Y.copy() if cat == "train" else gen.normal(draw, (nv, p))
+    xdtype = None
+    if draw(st.integers(0, 5)) == 0:
+        # binary fingerprints / small counts stored as bool, uint8 or int8: the same numbers, another dtype
+        xdtype = draw(st.sampled_from(["bool", "uint8", "int8"]))
+        hi_ = 2 if xdtype == "bool" else 16
+        rng = gen.rng_of(draw)
+        X = rng.integers(0, hi_, size=(n, m)).astype(float)
+        Y = pc.centre_norm(X @ gen.normal(draw, (m, p)) / hi_ + draw(st.sampled_from([0.1, 0.5])) * gen.normal(draw, (n, p)))
+        Xv = X.copy() if cat == "train" else rng.integers(0, hi_, size=(nv, m)).astype(float)
+        if not np.all(np.isfinite(Y)):
+            Y = pc.centre_norm(gen.normal(draw, (n, p)))
+        Yv = Y.copy() if cat == "train" else Yv
     kern = draw(st.sampled_from(KERNELS))
     center = draw(st.booleans())
     regs = ["none", "krr", "krr", "pre", "preW"] + ([] if center else ["krr_fitted"])
-    return {"X": X, "Y": Y, "Xv": Xv, "Yv": Yv, "heldout": cat,
+    return {"X": X, "Y": Y, "Xv": Xv, "Yv": Yv, "heldout": cat, "xdtype": xdtype,
             "mixing": draw(st.sampled_from([0.1, 0.5, 0.9, 1.0])), "k": draw(st.integers(1, n)),
             "kernel": kern, "gamma": draw(st.sampled_from([None, 0.1, 0.5, 1.0])), "degree": draw(st.sampled_from([2, 3])),
             "coef0": draw(st.sampled_from([0.0, 1.0])), "center": center,
@@ -130,7 +142,7 @@ def check(case, ctx):
     K, Kv, Kvv = kf(X, X), kf(Xv, X), kf(Xv, Xv)
     if center:
         Kc, cm, al, scale = centre_train(K)
-        if not np.isfinite(scale) or scale <= 1e-12:
+        if not np.isfinite(scale) or scale <= 1e-12 or scale <= 1e-6 * np.abs(K).max():      # (saturated kernels: centring cancels to rounding noise)
             ctx.skip("degenerate centred kernel")
             return
         Kvc = centre_test(Kv, cm, al, scale)
@@ -173,10 +185,15 @@ def check(case, ctx):
         fit_Y = fit_Y[:, 0]
         ctx.cls("y1d")
     A = build(kp, regressor, center)
+    # the named-kernel estimator receives the data in the caller's dtype (bool / uint8 / int8 for fingerprints and counts)
+    Xl, Xvl = X, Xv
+    if case.get("xdtype"):
+        Xl, Xvl = X.astype(case["xdtype"]), Xv.astype(case["xdtype"])
+        ctx.cls("xdtype=" + case["xdtype"])
     with ctx.lib("fit"):
-        A.fit(X, fit_Y, **fit_kw)
-        TA, PA = A.transform(Xv), A.predict(Xv)
-        TA_train = A.transform(X)
+        A.fit(Xl, fit_Y, **fit_kw)
+        TA, PA = A.transform(Xvl), A.predict(Xvl)
+        TA_train = A.transform(Xl)
     # (e) any number of rows
     ctx.true("shapes", TA.shape == (len(Xv), k) and np.asarray(PA).reshape(len(Xv), -1).shape == (len(Xv), Y.shape[1]),
              "transform %s predict %s for %d new samples" % (TA.shape, np.asarray(PA).shape, len(Xv)))
@@ -229,7 +246,7 @@ def check(case, ctx):
             TC2 = Cc.transform(Kvraw)
             sC1 = Cc.score(Kraw, Y[:, 0] if case.get("y1d") else Y)
             sC2 = Cc.score(Kraw, Y[:, 0] if case.get("y1d") else Y)
-            sA = A.score(X, Y[:, 0] if case.get("y1d") else Y)
+            sA = A.score(Xl, Y[:, 0] if case.get("y1d") else Y)
         ctx.close("precomputed+center:repeatable-transform", TC2, TC, 1e-12 * max(1.0, np.abs(TC).max()), "transform called twice on the same kernel")
         ctx.close("precomputed+center:repeatable-score", sC2, sC1, 1e-10 * max(1.0, abs(sC1)), "score called twice on the training kernel")
         if determined:
@@ -241,7 +258,8 @@ def check(case, ctx):
         ctx.count("precomputed_centered_checked")
 
     # (a) linear kernel == sample-space PCovR with the equivalent ridge ---------------------------------------
-    if kern == "linear" and not center and case["reg"] in ("krr", "none") and determined:
+    # (PCovR is defined for centred X: not compared on the uncentred fingerprint / count data)
+    if kern == "linear" and not center and case["reg"] in ("krr", "none") and determined and not case.get("xdtype"):
         pcv = PCovR(mixing=mix, n_components=min(k, min(n, m)), space="sample",
                     regressor=Ridge(alpha=reg_alpha, fit_intercept=False, tol=1e-12), svd_solver="full")
         if k <= min(n, m):
@@ -266,7 +284,7 @@ def check(case, ctx):
 
     # (d) score == -(L_kpca + L_krr) from the documented formula -----------------------------------------------
     with ctx.lib("score"):
-        s = A.score(Xv, Yv[:, 0] if case.get("y1d") else Yv)
+        s = A.score(Xvl, Yv[:, 0] if case.get("y1d") else Yv)
     tn, tv = Kc @ A.pkt_, Kvc @ A.pkt_
     wmat = tn @ np.linalg.pinv(tn.T @ tn, rcond=1e-12) @ tv.T
     trv = np.trace(Kvvc)
